@@ -668,8 +668,14 @@ def process_scenario(task):
             if vac == 'unsat':
                 out['errors'].append('vacuous scenario: preconditions unsatisfiable (path %d)' % pi)
                 continue
+            batched = batch_discharge(ctx, task.get('batch', 10), min(6, timeout))
             for oid, ob in ctx.obs.items():
                 rec = {'oid': oid + suffix, 'required': ob.required, 'note': ob.note}
+                if oid in batched:
+                    rec.update(status='unsat', time=batched[oid][0], solver='z3-batch', nq=1, size=sr.size([ob.goal]),
+                               batch=batched[oid][1])
+                    out['results'].append(rec)
+                    continue
                 try:
                     if ob.kind == 'fact':
                         ok = ob.goal is sr.TRUE
@@ -705,6 +711,36 @@ def process_scenario(task):
     out['wall'] = round(time.time() - t0, 3)
     out['smt'] = dict(smt.STATS)
     return out
+
+
+def batch_discharge(ctx, size, timeout):
+    """several obligations in one solver process:  pre AND  OR_i (H_i AND local_pre_i AND NOT goal_i)
+    is unsat  iff  every  pre AND H_i AND local_pre_i => goal_i  holds (H_i = the obligation's own definedness
+    hypotheses).  Returns {oid: (time share, batch size)} for batches answered unsat; everything else is
+    discharged individually afterwards (so a sat / unknown batch costs at most `timeout`)."""
+    done = {}
+    if size <= 1:
+        return done
+    cand = [(oid, ob) for oid, ob in ctx.obs.items()
+            if ob.kind != 'fact' and ob.goal is not sr.TRUE and not ob.cubes and not ob.axioms]
+    npre = len(ctx.pre)
+    common = list(ctx.pre) + list(ctx.axioms)
+    for k in range(0, len(cand), size):
+        chunk = cand[k:k + size]
+        if len(chunk) < 2:
+            continue
+        disj = sr.FALSE
+        for oid, ob in chunk:
+            local = [p for p in ob.pre if p not in common]
+            parts = local + ([] if ob.nodefs else _defs_hyps([ob.goal] + local)) + [sr.bnot(ob.goal)]
+            disj = sr.bor(disj, sr.conj(parts))
+        asserts = common + ([] if all(ob.nodefs for _, ob in chunk) else _defs_hyps(common)) + [disj]
+        asserts = asserts + auto_axioms(asserts)
+        r = smt.check(asserts, timeout=timeout)
+        if r['res'] == 'unsat':
+            for oid, ob in chunk:
+                done[oid] = (round(r['time'] / len(chunk), 4), len(chunk))
+    return done
 
 
 def _any_model(ctx, timeout):
